@@ -12,8 +12,8 @@
    That these stages are chained as the model says (skel clean, staging, swap)
    is the publish model of C03 and the history correspondence (real runs
    compared with a fresh real mirror): see DESIGN.md. *)
-From AM.Model Require Import Base Download Stage Converge RepoRun.
-From AM.Lemmas Require Import DownloadLemmas StageLemmas StageRunLemmas ConvergeLemmas RepoRunLemmas.
+From AM.Model Require Import Base Path Download Stage Pipeline Converge RepoRun Deb822 PoolQueue Unpack ReleaseStage.
+From AM.Lemmas Require Import DownloadLemmas StageLemmas StageRunLemmas ConvergeLemmas RepoRunLemmas TwinStage PoolQueueLemmas UnpackLemmas UnpackExamples ReleaseStageLemmas ReleaseStageExamples.
 Open Scope string_scope.
 Open Scope list_scope.
 
@@ -182,3 +182,132 @@ Example mirror_is_function_of_upstream_after_transient_faults :
   repo_run [ex_idx] ex_poolq ex_u_flaky ex_old_skel ex_old_mirror = repo_run [ex_idx] ex_poolq ex_u [] [] /\
   good_meta ex_idx ex_u_flaky ex_v 10 1700000001.
 Proof. exact repo_run_flaky_example. Qed.
+
+(* ---------------------------------------------------------------------------
+   The pool queue read off the staged indices (Model/PoolQueue.v, Model/Unpack.v).
+
+   get_pool_files puts the files of the Sources and of the Packages parser into one set; a file listed by
+   both with different hash sets stays queued twice ("twins").  The pool theorems above ask for pairwise
+   disjoint queued files; [pool_tree_with_twins] replaces that by consistency - files sharing a path are
+   size-checked single-path files of one declared size - and [pool_queue_is_consistent] shows that the
+   queue built from ANY lists of parsed entries is consistent as soon as no path is listed with two sizes
+   (hypothesis PoolConsistent, F14) and every entry has a positive size and is not under ignore_errors. *)
+Theorem pool_tree_with_twins :
+  forall u files fs_a fs_b ta tb,
+  consistent_files files -> forallb required_pool_file files = true ->
+  pool_run files u fs_a = (true, ta) -> pool_run files u fs_b = (true, tb) ->
+  forall p, sizes ta p = sizes tb p /\ sizes ta p = declared files p.
+Proof. exact pool_converges_twins. Qed.
+Print Assumptions pool_tree_with_twins.
+
+Theorem pool_queue_is_consistent :
+  forall srcs pkgs,
+  pool_consistent (List.concat srcs ++ List.concat pkgs) ->
+  forallb entry_required (List.concat srcs ++ List.concat pkgs) = true ->
+  consistent_files (pool_queue srcs pkgs) /\ forallb required_pool_file (pool_queue srcs pkgs) = true.
+Proof. exact pool_queue_meets_hypotheses. Qed.
+Print Assumptions pool_queue_is_consistent.
+
+(* The stored files the parsers read (the first of <index>.xz/.gz/.bz2 present in the cleaned skel, else
+   <index>), and hence the queue, do not depend on what skel held before the run ... *)
+Theorem parsed_queue_independent_of_history :
+  forall metaq sb pb read u (ann : dfile -> variant * N * Z) skel_a skel_b,
+  disjoint_files metaq ->
+  (forall f, In f metaq -> good_meta f u (fst (fst (ann f))) (snd (fst (ann f))) (snd (ann f))) ->
+  parsed_queue metaq sb pb read u skel_a = parsed_queue metaq sb pb read u skel_b.
+Proof. exact parsed_queue_determined. Qed.
+Print Assumptions parsed_queue_independent_of_history.
+
+(* ... so the whole repository run - metadata stage, skel clean-up, unpack + parse, queue, pool stage,
+   cleaning - ends with the same staged view, the same queue and the same pool from any two on-disk
+   histories; [poolq] of [mirror_is_function_of_upstream] is no longer an arbitrary function here but the
+   queue the model of get_pool_files builds from what [read] returns for the stored files. *)
+Theorem mirror_is_function_of_upstream_parsed :
+  forall metaq sb pb read u (ann : dfile -> variant * N * Z) skel_a mirror_a skel_b mirror_b va qa pa vb qb pb',
+  disjoint_files metaq ->
+  (forall f, In f metaq -> good_meta f u (fst (fst (ann f))) (snd (fst (ann f))) (snd (ann f))) ->
+  repo_run_parsed metaq sb pb read u skel_a mirror_a = Some (va, qa, pa) ->
+  repo_run_parsed metaq sb pb read u skel_b mirror_b = Some (vb, qb, pb') ->
+  consistent_files qa -> forallb required_pool_file qa = true ->
+  va = vb /\ qa = qb /\ forall p, sizes pa p = sizes pb' p /\ sizes pa p = declared qa p.
+Proof. exact repo_run_parsed_function_of_upstream. Qed.
+Print Assumptions mirror_is_function_of_upstream_parsed.
+
+Example mirror_is_function_of_upstream_parsed_example :
+  repo_run_parsed [x_pkg; x_src] ["d/Sources"] ["d/Packages"] x_read x_u [] [] =
+  repo_run_parsed [x_pkg; x_src] ["d/Sources"] ["d/Packages"] x_read x_u x_stale_skel x_stale_mirror /\
+  match repo_run_parsed [x_pkg; x_src] ["d/Sources"] ["d/Packages"] x_read x_u x_stale_skel x_stale_mirror with
+  | Some (_, _, pool) => map (sizes pool) ["pool/a.deb"; "pool/b.dsc"; "pool/old.deb"] = [Some 7%N; Some 5%N; None]
+  | None => False
+  end.
+Proof. exact parsed_run_example. Qed.
+
+Example twin_queue_meets_the_hypotheses :
+  match parsed_queue [x_pkg; x_src] ["d/Sources"] ["d/Packages"] x_read x_u [] with
+  | Some (_, q) => consistent_files q /\ forallb required_pool_file q = true /\ List.length q = 3
+  | None => False
+  end.
+Proof. exact x_queue_ok. Qed.
+
+(* ---------------------------------------------------------------------------
+   From the release files on (Model/ReleaseStage.v): the release rounds (fetch, drop what was not obtained,
+   validate; at most max(1, release_files_retries) rounds), the metadata queue selected from the release files
+   that are present, then the stages above.  [rel_definite]: the upstream answers every release file at the
+   first request, with a complete body or with 404.  [validf], [metaq_of] and the lists of selected indices
+   read nothing but the release files; for a skel that holds the release files as announced the selected queue
+   is answered well ([good_meta]).  Then two runs from ANY two on-disk histories end with the same staged view,
+   the same pool queue and the same pool: the release stage's outcome is no longer an input of the theorem -
+   a stale Release of an earlier run is removed, an older InRelease replaced, before anything is selected. *)
+Theorem mirror_is_function_of_upstream_from_release_files :
+  forall relq retries validf metaq_of sbf pbf read u
+         (ann : dfile -> option (variant * N * Z)) (ann2 : dfile -> variant * N * Z)
+         skel_a mirror_a skel_b mirror_b va qa pa vb qb pb',
+  disjoint_files relq -> (forall f, In f relq -> rel_definite u ann f) ->
+  (forall x y, agrees_on (rel_paths relq) x y ->
+     validf x = validf y /\ metaq_of x = metaq_of y /\ sbf x = sbf y /\ pbf x = pbf y) ->
+  (forall s, announced_rel ann relq s ->
+     disjoint_files (metaq_of s) /\
+     (forall f, In f (metaq_of s) -> good_meta f u (fst (fst (ann2 f))) (snd (fst (ann2 f))) (snd (ann2 f))) /\
+     (forall p, In p (rel_paths relq) -> ~ In p (flat_map all_paths (metaq_of s)))) ->
+  repo_run_full relq retries validf metaq_of sbf pbf read u skel_a mirror_a = Some (va, qa, pa) ->
+  repo_run_full relq retries validf metaq_of sbf pbf read u skel_b mirror_b = Some (vb, qb, pb') ->
+  consistent_files qa -> forallb required_pool_file qa = true ->
+  va = vb /\ qa = qb /\ forall p, sizes pa p = sizes pb' p /\ sizes pa p = declared qa p.
+Proof. exact repo_run_full_function_of_upstream. Qed.
+Print Assumptions mirror_is_function_of_upstream_from_release_files.
+
+(* the release stage alone: whatever skel held, after a round the release paths hold exactly what the upstream
+   has (absent flavours are absent), every other path is untouched *)
+Theorem release_round_is_determined_by_upstream :
+  forall u ann relq fs,
+  disjoint_files relq -> (forall f, In f relq -> rel_definite u ann f) ->
+  let '(rs, s1) := run_stage false relq u fs in
+  let s2 := drop_unobtained relq rs s1 in
+  (forall f q, In f relq -> In q (all_paths f) -> lookup s2 q = rel_value ann f) /\
+  (forall q, ~ In q (flat_map all_paths relq) -> lookup s2 q = lookup fs q).
+Proof. exact round_determined. Qed.
+Print Assumptions release_round_is_determined_by_upstream.
+
+Example whole_run_from_release_files_example :
+  repo_run_full y_relq 3 y_valid y_metaq (fun _ => ["d/Sources"]) (fun _ => ["d/Packages"]) x_read y_u [] [] =
+  repo_run_full y_relq 3 y_valid y_metaq (fun _ => ["d/Sources"]) (fun _ => ["d/Packages"]) x_read y_u y_stale_skel x_stale_mirror /\
+  match repo_run_full y_relq 3 y_valid y_metaq (fun _ => ["d/Sources"]) (fun _ => ["d/Packages"]) x_read y_u y_stale_skel x_stale_mirror with
+  | Some (view, q, pool) =>
+      map fst view = ["d/Packages.xz"; "d/Sources.xz"] /\ List.length q = 3 /\
+      map (sizes pool) ["pool/a.deb"; "pool/b.dsc"; "pool/old.deb"] = [Some 7%N; Some 5%N; None]
+  | None => False
+  end.
+Proof. exact full_run_example. Qed.
+
+Example release_files_of_the_example_are_definite : forall f, In f y_relq -> rel_definite y_u y_ann f.
+Proof. exact y_definite. Qed.
+
+Example stale_release_flavour_is_dropped :
+  match release_stage 3 y_relq (fun _ => y_u) y_valid y_stale_skel with
+  | (k, Some (rs, s)) =>
+      k = 1 /\ lookup s "d/Release" = None /\
+      lookup s "d/InRelease" = Some {| fsize := 20; fmt := Date 1700000000 |} /\
+      lookup s "d/Packages.xz" = lookup y_stale_skel "d/Packages.xz"
+  | _ => False
+  end.
+Proof. exact release_stage_example. Qed.
